@@ -5,7 +5,7 @@ kernels are called in harness/h_cred.c on a boundary lattice and must equal the 
 the clock interposed at encode and decode."""
 import itertools, json
 from ..vlib import leanlib, cbuild, judge
-from ..gen import g_dec
+from ..gen import g_dec, g_stages
 from . import _cred_common as cc
 from . import _conf_check
 
@@ -109,6 +109,9 @@ def run(ctx):
     g_dec.generate(ctx)
     if ctx.replay_in:
         return replay(ctx)
+    # the stages of enc.c / dec.c translated with their calls as events (enc_init: fresh salt / IV; enc_timestamp: the daemon's clock)
+    if g_stages.generate(ctx):
+        leanlib.check_props(ctx, "C02Stages")
     leanlib.check_props(ctx, "C06")
     drv = leanlib.driver(ctx)
     hreal = cc.build_real(ctx)
